@@ -29,7 +29,7 @@ SEEDS = [
 ''', '''	_ = numClusters
 ''')]},
  {"name": "c18-squashfs-xattr-table-unbounded", "properties": ["C18"], "expect": "C18-a|",
-  "edits": [e("filesystem/squashfs/squashfs.go", "	b = make([]byte, idBlocks*8)", "	b = make([]byte, uint64(idBytes)*8)")]},
+  "edits": [e("filesystem/squashfs/squashfs.go", "	b = make([]byte, idBlocks*8)", "	b = make([]byte, uint64(idBytes)*8+uint64(idBlocks-idBlocks))")]},
  {"name": "c18-squashfs-inode-blocklist-by-division", "properties": ["C18"], "expect": "C18-b|",
   "edits": [e("filesystem/squashfs/inode.go", "	blockListSize := int(d.fileSize / uint32(blocksize))", "	blockListSize := int(d.fileSize / (uint32(blocksize) - d.fragmentOffset))")]},
 ]
